@@ -61,7 +61,8 @@ def canon_fir_view(s):
 def canon_fir_bytes(line, b):
     """sort the 8-byte FIR entries of a top-level payload-feedback image"""
     t = toks(line)
-    if len(t) > 7 and t[0] == 'build' and t[2] == 'fb' and t[7] == 'fir' and len(b) >= 12:
+    if ((len(t) > 7 and t[0] == 'build' and t[2] == 'fb' and t[7] == 'fir') or
+            (len(t) > 5 and t[0] == 'hist' and t[2] == 'fb' and t[5] == 'fir')) and len(b) >= 12:
         pad = b[-1] if (b[0] & 0x20) and b[-1] <= len(b) - 12 else 0
         body = b[12:len(b) - pad]
         ents = sorted(body[i:i + 8] for i in range(0, len(body) - len(body) % 8, 8))
@@ -455,11 +456,15 @@ class C07(Prop):
         for _ in range(n // 8):
             out.append('chunk e0:aa,e0:55,e4:ff ' + g.chunk(valid=not g.chance(0.05)))
             out.append('item e0:aa,e0:55,e4:ff ' + g.item(valid=not g.chance(0.05), nonzero=False))
+        # configurations reached through call histories (owned / borrowed variants, setters in any order, wrappers):
+        # the bytes must be the RFC image of the final configuration (coq/Spec/Final.v)
+        from . import props2
+        out += [l for l in props2.history_cases(g, n // 5) if kind_of(l) == 'hist']
         return out
     def relevant(self, line, impl, model):
         if kind_of(line) in ('chunk', 'item'):
             return True
-        return kind_of(line) == 'build' and (ok_str(impl.get('size')) or ok_str(model.get('size')))
+        return kind_of(line) in ('build', 'hist') and (ok_str(impl.get('size')) or ok_str(model.get('size')))
     def proj(self, line, obs):
         return (obs.get('size'), tuple((r, canon_fir_bytes(line, b) if b is not None else None)
                                        for r, b in writes_of(obs.get('writes'))))
@@ -480,6 +485,11 @@ class C07(Prop):
         if not ok_str(impl.get('size')):
             return []
         n = size_n(impl['size'])
+        if model.get('spec.representable') == 'false':
+            # accepted although the RFC layout cannot hold it (count beyond 5 bits, length beyond its octet ...):
+            # no RFC image exists for the bytes to equal.  Oversize totals (D13) are filtered as a known class.
+            return ['the builder accepts a configuration the RFC layout cannot represent (%s): there is no RFC image'
+                    % model.get('spec.violations', '')[:200]]
         want = canon_fir_bytes(line, S.hexbytes(model['spec.image']))
         fails = []
         for r, b in writes_of(impl.get('writes')):
@@ -559,7 +569,73 @@ def huge_inputs(g):
             'parse rr %s' % hx(bytes([0x80, 201, 0, 1]) + g.rawbytes(4) + z),
             'parse packet %s' % hx(bytes([0x80, 204, 0, 2]) + g.rawbytes(8) + z),
             'parse app %s' % hx(bytes([0x80, 204, 0xff, 0xff]) + g.rawbytes(8)),
-            'parse compound %s' % hx(bytes([0x80, 201, 0xff, 0xff]) + g.rawbytes(4))]
+            'parse compound %s' % hx(bytes([0x80, 201, 0xff, 0xff]) + g.rawbytes(4))] + [l for l, _ in max_inputs(g)]
+
+def max_inputs(g):
+    """the largest packet the format can frame (length field 0xffff, 262144 bytes), exact, one word short and one
+    word long, for typed, unknown, generic and compound entries; the maximal APP ends in a word that looks like a
+    BYE header, so a tiling that stops a word early shows as a phantom packet.  Returns (line, must_accept)."""
+    def pkt(pt, n, first=0x80):
+        body = bytearray(n - 4)
+        body[0:8] = g.rawbytes(8)
+        body[-4:] = bytes([0x80, 203, 0, 0])
+        return bytes([first, pt, 0xff, 0xff]) + bytes(body)
+    out = []
+    for e, pt in (('app', 204), ('unknown', 199), ('packet', 204), ('packet', 77), ('rr', 201)):
+        out.append(('parse %s %s' % (e, hx(pkt(pt, 262144))), True))
+    out.append(('parse packet %s' % hx(pkt(204, 262140)), False))
+    out.append(('parse app %s' % hx(pkt(204, 262148)), False))
+    out.append(('parse unknown %s' % hx(pkt(199, 262140)), False))
+    out.append(('parse compound %s' % hx(pkt(204, 262144)), True))
+    out.append(('parse compound %s' % hx(pkt(199, 262144) + bytes([0x81, 203, 0, 1, 1, 2, 3, 4])), True))
+    return out
+
+def trunc_sweep(g):
+    """inputs cut short: every packet type (and an unknown one), version 2 and not, 1..28 bytes present, with a
+    length field that announces what is there, more than is there, or much more - the order in which the
+    minimum-size, version, type and announced-length checks fire, for the generic and every typed parser"""
+    out = []
+    for pt in (200, 201, 202, 203, 204, 205, 206, 199):
+        for ver in (2, 1):
+            for n in (1, 2, 3, 4, 8, 12, 24, 28):
+                for lf in sorted(set([max(n // 4 - 1, 0), n // 4 + 1, 12])):
+                    b = (bytes([(ver << 6) | g.pick([0, 1]), pt, lf >> 8, lf & 0xff]) + g.rawbytes(28))[:n]
+                    out.append(b)
+    return out
+
+def pad_overflow_sweep(g):
+    """packets around 256 bytes with the padding bit set and a padding count near 255 or near the body size:
+    arithmetic on the padding count that is done in 8 bits shows here and nowhere else"""
+    out = []
+    for e in ('app', 'tfb', 'pfb', 'bye', 'rr', 'sr', 'sdes'):
+        pt, mn = ENTRY_PT[e], ENTRY_MIN[e]
+        for total in (252, 256, 260, 264, 512):
+            lasts = sorted(set(x for x in (255, 254, 252, 248, 245, 244, 243, 240, 228, 224, 128, total - mn - 4, total - mn,
+                                           total - mn + 1, total - mn + 4, total - 4, (total - mn) & 0xff, (total + 4) & 0xff)
+                               if 0 <= x <= 255))
+            for last in lasts:
+                b = bytearray(g.rawbytes(total))
+                b[0], b[1] = 0xa0, pt
+                lf = total // 4 - 1
+                b[2], b[3] = lf >> 8, lf & 0xff
+                if e == 'sdes':
+                    b[4:] = bytes(total - 4)
+                b[-1] = last
+                out.append((e, bytes(b)))
+    return out
+
+def edge_parse_lines(g):
+    """the truncation and padding-overflow sweeps as case lines: each input to the generic parser, to the typed
+    parser its type byte names, to the unknown parser and as a one-packet compound"""
+    out = []
+    for b in trunc_sweep(g):
+        ents = ['packet', 'unknown', 'compound']
+        if len(b) >= 2 and b[1] in PT_ENTRY:
+            ents.append(PT_ENTRY[b[1]])
+        out += ['parse %s %s' % (e, hx(b)) for e in ents]
+    for e, b in pad_overflow_sweep(g):
+        out += ['parse %s %s' % (x, hx(b)) for x in (e, 'packet', 'compound')]
+    return out
 
 def carry_tiles(g):
     """compounds with tiles whose length field has an all-ones low byte (0x00ff, 0x01ff, 0x02ff, 0x03ff: carries
@@ -694,7 +770,7 @@ class C01(Prop):
         big = bytes([0x80 | g.r.randrange(32), 204, 0xff, 0xff]) + g.rawbytes(8) + bytes(262144 - 12)
         out.append('parse compound %s' % hx(bytes([0x80, 201, 0, 1]) + g.rawbytes(4) + big + bytes([0x80, 203, 0, 0])))
         out.append('parse packet %s' % hx(big))
-        return out + huge_inputs(g)
+        return out + huge_inputs(g) + edge_parse_lines(g)
     def relevant(self, line, impl, model):
         return kind_of(line) == 'parse'
     def proj(self, line, obs):
@@ -732,7 +808,7 @@ class C08(Prop):
             'that passes the version and type checks')
     def cases(self, g, tier, h):
         n = 600 if tier == 'quick' else 25000
-        out = gen_header_sweep(g, full=(tier != 'quick')) + huge_inputs(g) + sdes_pad_sweep()
+        out = gen_header_sweep(g, full=(tier != 'quick')) + huge_inputs(g) + sdes_pad_sweep() + edge_parse_lines(g)
         for e, b in gen_parse_inputs(g, h, n, malformed_ratio=0.6):
             out.append('parse %s %s' % (e, hx(b)))
             if g.chance(0.4):
@@ -813,7 +889,8 @@ class C18(Prop):
     rule = ('every parser (typed, generic, unknown, compound, report block, FCI) on mutated and random inputs; '
             'non-trivial = distinct rejected input')
     def cases(self, g, tier, h):
-        return gen_header_sweep(g, full=(tier != 'quick')) + huge_inputs(g) + gen_parse_mixed(g, h, 500 if tier == 'quick' else 20000, tier)
+        return (gen_header_sweep(g, full=(tier != 'quick')) + huge_inputs(g) + edge_parse_lines(g) +
+                gen_parse_mixed(g, h, 500 if tier == 'quick' else 20000, tier))
     CONV_KEYS = ('conv', 'convv', 'pconv', 'pconvv')
     CONV_TARGETS = ['app', 'bye', 'rr', 'sdes', 'sr', 'tfb', 'pfb']
     def relevant(self, line, impl, model):
@@ -856,6 +933,10 @@ class C18(Prop):
         mn = ENTRY_MIN.get(entry)
         if entry.startswith('custom'):
             mn = int(entry.split(':')[2])
+        if entry == 'compound' and len(b) < 4:
+            # shorter than one common header: the compound parser's own minimum
+            if e != ['Truncated', '4', str(len(b))]:
+                fails.append('compound input shorter than one header reported as %s' % ser(e))
         if mn is not None:
             if len(b) < mn:
                 if e != ['Truncated', str(mn), str(len(b))]:
